@@ -16,12 +16,15 @@ import (
 // equivalent by construction (list order, optional whitespace, q=1 ≡ absent,
 // x-gzip ≡ gzip); different meanings are definitely different.
 var selTable = map[string][][]string{
-	"Accept-Encoding": {{"gzip", "x-gzip", "gzip;q=1.0"}, {"gzip, br", "br,gzip", "br, x-gzip"}, {"identity"}, {""}},
+	"Accept-Encoding": {{"gzip", "x-gzip", "gzip;q=1.0"}, {"gzip, br", "br,gzip", "br, x-gzip"}, {"identity"}, {"x-gzip-ng"}, {"gzip-ng"}, {""}},
 	"Accept-Language": {{"en", "en;q=1"}, {"en, fr;q=0.8", "fr;q=0.8, en", "en,fr;q=0.80"}, {"de"}, {""}},
-	"Accept":          {{"text/html", "text/html;q=1.0"}, {"application/json, text/plain;q=0.5", "text/plain;q=0.5,application/json"}, {""}},
-	"X-A":             {{"1"}, {"2"}, {"1X-B2"}, {"12"}, {""}},
-	"X-B":             {{"2"}, {"1"}, {"X-A1"}, {""}},
-	"X-Tenant":        {{"alpha"}, {"beta"}, {"caf\xe9"}, {""}}, // obs-text (a byte >= 0x80) is a legal field value
+	"Accept":          {{"text/html", "text/html;q=1.0"}, {"application/json, text/plain;q=0.5", "text/plain;q=0.5,application/json"}, {"text/html;level=1"}, {"text/html;level=1, text/html;level=2", "text/html;level=2,text/html;level=1"}, {""}},
+	// fields whose values are case-sensitive (a URI path, product tokens): one spelling per meaning
+	"Referer":    {{"http://h.test/Doc/A", "HTTP://H.TEST/Doc/A"}, {"http://h.test/doc/a"}, {""}},
+	"User-Agent": {{"Fetcher/1.0 (Build-AB)"}, {"Crawler/2.1"}, {""}}, // (compared without regard to case by the library: a test of the suite pins that)
+	"X-A":        {{"1"}, {"2"}, {"1X-B2"}, {"12"}, {""}},
+	"X-B":        {{"2"}, {"1"}, {"X-A1"}, {""}},
+	"X-Tenant":   {{"alpha"}, {"beta"}, {"caf\xe9"}, {""}}, // obs-text (a byte >= 0x80) is a legal field value
 	// credentials that differ only after the first token (one spelling per meaning: nothing is claimed equivalent)
 	"Authorization": {{`OAuth oauth_consumer_key="app", oauth_token="alice"`}, {`OAuth oauth_consumer_key="app", oauth_token="bob"`}, {`Digest realm="api", username="alice", nonce="n1"`}, {`Digest realm="api", username="bob", nonce="n1"`}, {"Bearer tok1"}, {"Bearer tok2"}, {""}},
 }
@@ -363,7 +366,7 @@ func (g *gen) plan(b *bias, resIdx, nRes int, vary string) RespPlan {
 	return p
 }
 
-var varyChoices = []string{"X-A", "X-A, X-B", "X-B, X-A", "Accept-Encoding", "Accept-Language", "Accept, Accept-Encoding", "X-Tenant", "Authorization", "X-A, *"}
+var varyChoices = []string{"X-A", "X-A, X-B", "X-B, X-A", "Accept-Encoding", "Accept-Language", "Accept, Accept-Encoding", "X-Tenant", "Authorization", "X-A, *", "Accept", "Referer", "User-Agent"}
 
 func (g *gen) resource(b *bias, i, n int) Resource {
 	host := "a.test"
